@@ -352,3 +352,49 @@ package twig
 //@ func (*DoNode).Render props: C09
 //@   flag rely_tree yes
 //@   ensures[C09] err == nil ==> tr == emitEval(old(tr), n.expression, ctx)
+
+// ---------------------------------------------------------------- operators (C08)
+// the operator table of the statement: or < and < comparison < + - ~ < * / % < ^
+//@ func getOperatorPrecedence props: C08
+//@   function
+//@   ensures PREC_LOWEST < PREC_OR && PREC_OR < PREC_AND && PREC_AND < PREC_COMPARE && PREC_COMPARE < PREC_SUM && PREC_SUM < PREC_PRODUCT && PREC_PRODUCT < PREC_POWER && PREC_POWER < PREC_PREFIX
+//@   ensures operator == "or" || operator == "||" ==> ret == PREC_OR
+//@   ensures operator == "and" || operator == "&&" ==> ret == PREC_AND
+//@   ensures operator == "==" || operator == "!=" || operator == "<" || operator == ">" || operator == "<=" || operator == ">=" ==> ret == PREC_COMPARE
+//@   ensures operator == "in" || operator == "not in" || operator == "matches" || operator == "starts with" || operator == "ends with" ==> ret == PREC_COMPARE
+//@   ensures operator == "+" || operator == "-" || operator == "~" ==> ret == PREC_SUM
+//@   ensures operator == "*" || operator == "/" || operator == "%" ==> ret == PREC_PRODUCT
+//@   ensures operator == "^" ==> ret == PREC_POWER
+
+// and/or evaluate the right operand only when needed; the conditional evaluates exactly one branch
+//@ define binN() unboxAs(node, "*BinaryNode")
+//@ define condN() unboxAs(node, "*ConditionalNode")
+//@ define leftFalsy() !fn_toBool_0(ctx, evalRes(old(tr), binN().left, ctx))
+//@ impl (*RenderContext).EvaluateExpression props: C08
+//@   flag rely_tree yes
+//@   ensures[C08] err == nil && typeIs(node, "*BinaryNode") && (binN().operator == "and" || binN().operator == "&&") && leftFalsy() ==> tr == emitEval(old(tr), binN().left, ctx) && typeIs(ret0, "bool") && !unboxAs(ret0, "bool")
+//@   ensures[C08] err == nil && typeIs(node, "*BinaryNode") && (binN().operator == "or" || binN().operator == "||") && !leftFalsy() ==> tr == emitEval(old(tr), binN().left, ctx) && typeIs(ret0, "bool") && unboxAs(ret0, "bool")
+//@   ensures[C08] err == nil && typeIs(node, "*BinaryNode") && !((binN().operator == "and" || binN().operator == "&&") && leftFalsy()) && !((binN().operator == "or" || binN().operator == "||") && !leftFalsy()) ==> tr == emitEval(emitEval(old(tr), binN().left, ctx), binN().right, ctx)
+//@   ensures[C08] err == nil && typeIs(node, "*ConditionalNode") ==> tr == emitEval(emitEval(old(tr), condN().condition, ctx), ite(fn_toBool_0(ctx, evalRes(old(tr), condN().condition, ctx)), condN().trueExpr, condN().falseExpr), ctx)
+// operator meaning on the converted operands (float operations are named, not interpreted)
+//@ func (*RenderContext).toNumber props: C08
+//@   function
+//@ func (*RenderContext).equals props: C08
+//@   function
+//@ func (*RenderContext).ToString props: C08 C03
+//@   function
+//@ define bothNum() fn_toNumber_1(ctx, left) && fn_toNumber_1(ctx, right)
+//@ define lnum() fn_toNumber_0(ctx, left)
+//@ define rnum() fn_toNumber_0(ctx, right)
+//@ func (*RenderContext).evaluateBinaryOp props: C08
+//@   ensures[C08] err == nil && (operator == "and" || operator == "&&") ==> typeIs(ret0, "bool") && unboxAs(ret0, "bool") == (fn_toBool_0(ctx, left) && fn_toBool_0(ctx, right))
+//@   ensures[C08] err == nil && (operator == "or" || operator == "||") ==> typeIs(ret0, "bool") && unboxAs(ret0, "bool") == (fn_toBool_0(ctx, left) || fn_toBool_0(ctx, right))
+//@   ensures[C08] err == nil && operator == "~" ==> typeIs(ret0, "string") && unboxAs(ret0, "string") == sconcat(fn_ToString_0(ctx, left), fn_ToString_0(ctx, right))
+//@   ensures[C08] err == nil && operator == "==" ==> typeIs(ret0, "bool") && unboxAs(ret0, "bool") == fn_equals_0(ctx, left, right)
+//@   ensures[C08] err == nil && operator == "!=" ==> typeIs(ret0, "bool") && unboxAs(ret0, "bool") == !fn_equals_0(ctx, left, right)
+//@   ensures[C08] err == nil && operator == "<" && bothNum() ==> typeIs(ret0, "bool") && unboxAs(ret0, "bool") == f_lt(lnum(), rnum())
+//@   ensures[C08] err == nil && operator == ">" && bothNum() ==> typeIs(ret0, "bool") && unboxAs(ret0, "bool") == f_lt(rnum(), lnum())
+//@   ensures[C08] err == nil && operator == "<=" && bothNum() ==> typeIs(ret0, "bool") && unboxAs(ret0, "bool") == f_le(lnum(), rnum())
+//@   ensures[C08] err == nil && operator == ">=" && bothNum() ==> typeIs(ret0, "bool") && unboxAs(ret0, "bool") == f_le(rnum(), lnum())
+//@   ensures[C08] err == nil && operator == "-" && bothNum() ==> typeIs(ret0, "float64") && unboxAs(ret0, "float64") == f_sub(lnum(), rnum())
+//@   ensures[C08] err == nil && operator == "*" && bothNum() ==> typeIs(ret0, "float64") && unboxAs(ret0, "float64") == f_mul(lnum(), rnum())
